@@ -48,6 +48,16 @@ static size_t ll_nx[LL_N], ll_pv[LL_N];       /* pre-state, index form  */
 static size_t ll_ex_nx[LL_N], ll_ex_pv[LL_N]; /* expected post-state    */
 static size_t ll_rank[LL_N];                  /* acyclicity witness     */
 
+/* replay variables (DESIGN 3.5): the pre-state universe in index form, the universe's shape and the operation's
+ * arguments as plain scalars, so that they appear by name in the counterexample trace (array elements do not).
+ * Plain copies of the inputs; nothing is proved about or with them.  replay/linked_list_replay.c rebuilds the
+ * universe from them and runs the real operation. */
+size_t r_ll_k, r_ll_nl, r_p0, r_p1;
+size_t r_nx0, r_nx1, r_nx2, r_nx3, r_nx4, r_nx5, r_nx6, r_nx7, r_nx8, r_nx9, r_nx10, r_nx11;
+size_t r_pv0, r_pv1, r_pv2, r_pv3, r_pv4, r_pv5, r_pv6, r_pv7, r_pv8, r_pv9, r_pv10, r_pv11;
+#define LL_R_MAX 12
+#define LL_R(i) do { if ((i) < LL_N) { r_nx##i = ll_nx[(i) < LL_N ? (i) : 0]; r_pv##i = ll_pv[(i) < LL_N ? (i) : 0]; } } while (0)
+
 static struct aws_linked_list_node *ll_u(size_t i) {
     if (i < LL_K) return &ll_node[i];
     if (i == LL_OUTSIDE) return &ll_outside;
@@ -67,6 +77,9 @@ static void ll_setup(void) {
         ll_ex_nx[i] = ll_nx[i];
         ll_ex_pv[i] = ll_pv[i];
     }
+    _Static_assert(LL_N <= LL_R_MAX, "more universe nodes than replay variables");
+    r_ll_k = LL_K; r_ll_nl = LL_NL; r_p0 = LL_NONE; r_p1 = LL_NONE;
+    LL_R(0); LL_R(1); LL_R(2); LL_R(3); LL_R(4); LL_R(5); LL_R(6); LL_R(7); LL_R(8); LL_R(9); LL_R(10); LL_R(11);
 }
 
 /* LL_INV on the pre-state for every node except `skip` (a node about to be inserted may hold stale links), plus
